@@ -29,6 +29,9 @@ const verifDir = "/verif"
 // outDir: where evidence/ and replays/ go. Development runs (MXSIM_REPO / MXSIM_HARNESS) must not
 // overwrite the evidence of the registered checks.
 func outDir() string {
+	if v := os.Getenv("MXSIM_OUT"); v != "" {
+		return v // evaluation of seeded changes: keep the registered evidence untouched
+	}
 	if os.Getenv("MXSIM_REPO") != "" || os.Getenv("MXSIM_HARNESS") != "" {
 		return "/var/tmp/mxsim-dev-out"
 	}
